@@ -75,6 +75,8 @@ func constIndexTables(fn *ssa.Function) map[string]byte {
 func runC03(c *core.Ctx, r *core.Reporter) {
 	c.BuildSSA()
 	c03tail(c, r, "C03.tail")
+	// the printers of bignums and ratios take machine-word short cuts
+	bigInt64Rule(c, r, "C03.int64")
 	c03fname(c, r)
 	c03symbol(c, r)
 	m := buildReaderModel(c)
